@@ -13,7 +13,7 @@ REQUIRED = [
     "CifModel.Model.Chars.mask_link", "CifModel.Model.Lexer.consts_link",
 ]
 GEN = ["CharClass", "ErrCodes"]
-FAMILIES = ["lex"]
+FAMILIES = ["lex", "parsedoc"]
 TRUSTED_BASE = [
     "Lean 4.33.0 kernel; axioms used: propext, Classical.choice, Quot.sound only (audited per theorem); decide +kernel for the "
     "160-entry class tables, the metaclass table and the 65536 code units of mask_link",
